@@ -517,6 +517,10 @@ func (in *Interp) siteOf(fr *Frame) string {
 func (in *Interp) visit(fr *Frame) {
 	fr.visits[fr.block.Index]++
 	if fr.visits[fr.block.Index] > in.cfg.MaxVisits {
+		if in.cfg.PruneUnwind && len(in.threads) > 1 {
+			in.unfair++
+			panic(abortf("SLEEP", "unfair schedule (loop bound)"))
+		}
 		panic(abortf("BOUND-EXCEEDED", "block %d of %s visited more than %d times (unwinding bound)", fr.block.Index, fr.fn, in.cfg.MaxVisits))
 	}
 }
